@@ -154,9 +154,14 @@ impl EditGen {
                 }
                 1 => {
                     labels.push("ins:fragment");
-                    let toks = doc::fragment_tokens(lang, t, 12);
-                    inserted = doc::render(lang, &toks, t);
-                    if t.pct(70) {
+                    let frags = lang.meta_strs("fragments");
+                    if !frags.is_empty() {
+                        inserted = t.pick(&frags).clone().into_bytes();
+                    } else {
+                        let toks = doc::fragment_tokens(lang, t, 12);
+                        inserted = doc::render(lang, &toks, t);
+                    }
+                    if frags.is_empty() && t.pct(70) {
                         inserted.insert(0, b' ');
                         inserted.push(b' ');
                     }
